@@ -311,7 +311,14 @@ pub fn init_from_file(config_path: &Path) -> Result<InitResult> {
     });
   }
 
-  let processor = Arc::new(EventProcessor::new(actors, error_tx_channel));
+  let processor = Arc::new(
+    EventProcessor::new(actors, error_tx_channel).with_logger_tree(
+      internal_config
+        .loggers
+        .values()
+        .map(|logger| (logger.name.as_str(), logger.additive)),
+    ),
+  );
   let max_level = processor.max_level();
 
   let dispatch_layer = DispatchLayer::new(Arc::clone(&processor));
